@@ -63,6 +63,9 @@ func buildQuery(vc *VC, o *Obligation) string {
 	var sb strings.Builder
 	sb.WriteString("; obligation: " + o.Name + "\n; source: " + o.Src + "\n")
 	sb.WriteString(smtPrelude)
+	for _, d := range vc.alignmentDefs() {
+		sb.WriteString(d + "\n")
+	}
 	for _, d := range vc.decls {
 		sb.WriteString(d + "\n")
 	}
@@ -109,7 +112,9 @@ func verifyFunction(P *Program, CS *ContractSet, L *Layout, ct *FuncContract, op
 	vc := NewVC(P, CS, L, fn, ct)
 	err := vc.Generate()
 	var loopGone *OblReport
-	if err != nil && (strings.Contains(err.Error(), "does not exist (function has") || strings.Contains(err.Error(), "contract says")) {
+	if err != nil && (strings.Contains(err.Error(), "does not exist (function has") || strings.Contains(err.Error(), "contract says") ||
+		(strings.Contains(err.Error(), "/loop#") && strings.Contains(err.Error(), "unknown name"))) {
+		// (third case: a loop invariant names a local variable that no longer exists)
 		// the loop a contract clause is attached to is gone or is a different loop now: that is reported,
 		// and the rest of the contract (pre/postconditions, at-call assertions, frame) is still checked -
 		// without the loop clauses that no longer attach - so that the report also names what the
